@@ -225,7 +225,7 @@ func (dcc *dataConditionsContainer) finalize(r *Reader, queryPartIndex int, prev
 			for v, vIdx := range varNameIndex {
 				quoted := ""
 				for _, d := range vd.data {
-					if d.queryParts.IsSet(uint(queryPartIndex)) && d.name != v {
+					if !d.queryParts.IsSet(uint(queryPartIndex)) || d.name != v {
 						continue
 					}
 					quoted += quoteValue(d.value) + "|"
